@@ -44,7 +44,7 @@ ASSUMPTIONS = [
 REQUIRED = {"stratum:locality": 20, "stratum:potential": 20, "route:text": 40, "route:api": 40,
             "checked:deriv": 100, "checked:deriv2": 60, "leaf:custom": 10, "leaf:table": 5,
             "mod:product": 10, "mod:pow": 5, "mod:trans": 10, "mod:spline": 5, "at_zero": 10,
-            "leafkind:units": 15, "stratum:table_slope": 10, "checked:table_slope": 200, "potential:near_origin": 10}
+            "leafkind:units": 15, "mixed_ranges": 10, "mixed_modifier": 10, "stratum:table_slope": 10, "checked:table_slope": 200, "potential:near_origin": 10}
 
 
 @st.composite
@@ -97,6 +97,80 @@ def _units_case(draw, name):
     pd = {"ranges": [{"m": None, "s": None, "body": {"k": "form", "name": name, "p": p}}]}
     return {"kind": "expr", "leafkind": "units", "env": {"custom": [], "table": []}, "pd": pd, "rs": rs, "lscale": L,
             "escale": 10.0 ** e}
+
+
+@st.composite
+def _mixed_ranges_case(draw, pycallable=False):
+    """multi-range definitions that mix ranges with and without analytic derivatives, in every order: the numerical
+    fallback applies to the ranges that need it (and to no other), each differentiated as ITS OWN function"""
+    customs = draw(gen.custom_forms(2, 2, min_forms=1))
+    n = draw(st.integers(2, 4))
+    kinds = draw(st.lists(st.sampled_from(["custom", "form"]), min_size=n, max_size=n).filter(lambda l: len(set(l)) == 2))
+    starts = [0.0]
+    for _ in range(n - 1):
+        starts.append(round(starts[-1] + draw(gen.fl(0.4, 4.0, sig=2)), 2))
+    rgs = []
+    for i, (k, s0) in enumerate(zip(kinds, starts)):
+        body = draw(gen.custom_leaf(customs)) if k == "custom" else draw(gen.form_leaf(gen.SMOOTH))
+        if k == "custom" and pycallable:
+            body = dict(body, has=draw(st.integers(0, 2)))
+        rgs.append({"m": (None if i == 0 and draw(st.booleans()) else draw(st.sampled_from([">", ">="]))), "s": (None if i == 0 else s0),
+                    "body": body})
+        if i == 0 and rgs[0]["m"] is not None:
+            rgs[0]["s"] = draw(st.sampled_from([0, 0.25]))
+        elif i == 0:
+            rgs[0]["s"] = None
+    rs = [round((a + b) / 2.0, 3) for a, b in zip(starts, starts[1:] + [starts[-1] + 3.0])] + draw(st.lists(gen.fl(0.3, 12.0), min_size=2, max_size=4))
+    return {"kind": "expr", "leafkind": "pycallable" if pycallable else "custom", "env": {"custom": customs, "table": []},
+            "pd": {"ranges": [rgs[0]] + list(draw(st.permutations(rgs[1:])))}, "rs": rs,
+            "mixed": True}
+
+
+def _v(n):
+    return {"o": "var", "n": n}
+
+
+# hand-written custom forms with plenty of slope and curvature everywhere on (0, 30]
+CURVED = [
+    {"name": "invsq", "params": ["r", "a"], "expr": {"o": "/", "a": _v("a"), "b": {"o": "^", "a": _v("r"), "p": 2}}},
+    {"name": "gaussf", "params": ["r", "a", "w"], "expr": {"o": "*", "a": _v("a"), "b": {"o": "call", "f": "exp", "args": [
+        {"o": "neg", "a": {"o": "^", "a": {"o": "/", "a": _v("r"), "b": _v("w")}, "p": 2}}]}}},
+    {"name": "quadf", "params": ["r", "a", "b"], "expr": {"o": "+", "a": {"o": "*", "a": _v("a"), "b": {"o": "^", "a": _v("r"), "p": 2}},
+                                                        "b": {"o": "*", "a": _v("b"), "b": _v("r")}}},
+    {"name": "expdec", "params": ["r", "a", "w"], "expr": {"o": "*", "a": _v("a"), "b": {"o": "call", "f": "exp", "args": [
+        {"o": "neg", "a": {"o": "/", "a": _v("r"), "b": _v("w")}}]}}},
+]
+
+
+@st.composite
+def _mixed_modifier_case(draw, pycallable=False):
+    """sum / product (also nested, also with ranged arguments) of components WITH and WITHOUT analytic derivatives:
+    each component contributes its own first and second derivative, the numerical fallback standing in only for
+    the components that need it"""
+    def custom():
+        f = draw(st.sampled_from(CURVED))
+        ps = [draw(gen.fl(0.5, 4.0)) for _ in f["params"][1:]]
+        b = {"k": "custom", "name": f["name"], "p": ps}
+        if pycallable:
+            b["has"] = draw(st.integers(0, 2))
+        return b
+
+    def single(b, ranged=False):
+        if ranged and draw(st.booleans()):
+            return {"ranges": [{"m": draw(st.sampled_from([">", ">="])), "s": draw(st.sampled_from([0, 0.5, 1.0])), "body": b}]}
+        return {"ranges": [{"m": None, "s": None, "body": b}]}
+    smooth = gen.form_leaf(["bornmayer", "buck", "morse", "polynomial", "lj", "constant", "exponential"])
+    m = draw(st.sampled_from(["sum", "sum", "product"]))
+    args = [single(draw(smooth), True), single(custom(), True)]
+    if draw(st.booleans()):
+        args.append(single(draw(st.one_of(smooth, st.just(None))) or custom(), True))
+    args = list(draw(st.permutations(args)))
+    node = {"k": "mod", "m": m, "args": args}
+    if draw(st.integers(0, 2)) == 0:
+        node = {"k": "mod", "m": draw(st.sampled_from(["sum", "product"])), "args": list(draw(st.permutations(
+            [single(node), single(draw(st.one_of(smooth, st.just(None))) or custom())])))}
+    return {"kind": "expr", "leafkind": "pycallable" if pycallable else "custom", "env": {"custom": CURVED, "table": []},
+            "pd": single(node), "rs": draw(st.lists(gen.fl(0.6, 8.0), min_size=5, max_size=7)), "mixed_mod": True}
 
 
 def _open_left(pd):
@@ -169,6 +243,8 @@ def strata(tier):
         ("locality", _locality_case(), 2), ("potential", _potential_case(), 2),
         ("potential_near_origin", _potential_origin_case(), 1),
         ("table_slope", _slope_case(), 1),
+        ("expr:mixed_ranges", st.one_of(_mixed_ranges_case(False), _mixed_ranges_case(True)), 2),
+        ("expr:mixed_modifier", st.one_of(_mixed_modifier_case(False), _mixed_modifier_case(False), _mixed_modifier_case(True)), 2),
     ] + [("expr:units:" + f, _units_case(f), 0.2) for f in gen.UNIT_FORMS if f != "zero"]
 
 
@@ -275,6 +351,10 @@ def _check_expr(case):
         cls.append("leaf:buck4")
     ref = model.Ref(env)
     rs = list(case["rs"])
+    if case.get("mixed"):
+        cls.append("mixed_ranges")
+    if case.get("mixed_mod"):
+        cls.append("mixed_modifier")
     if case["leafkind"] == "regular0":
         cls.append("at_zero")
     else:
